@@ -249,8 +249,9 @@ func fmtErrorSourceLineWithParser(p *syntax.Parser, cursorIdx int, withCursorMar
 	if cursorIdx < startIdx {
 		cursorIdx = startIdx
 	}
-	// find next until meeting first CR/LF
-	for endIdx < len(sourceT) {
+	// find next until meeting first CR/LF (or the end of the source: the appended
+	// end marker is no part of the line)
+	for endIdx < len(sourceT)-1 {
 		if sourceT[endIdx] == syntax.RuneCR || sourceT[endIdx] == syntax.RuneLF {
 			break
 		}
